@@ -139,3 +139,16 @@ func VerifC04Run(dir string, clientCommand []string, suiteYAML, cfgYAML string, 
 	defer logPrinter.mu.Unlock()
 	return ok, errText, append([]string{}, logPrinter.lines...)
 }
+
+// VerifC04BatchReport runs one scripted server batch through the real runTestCasesForServer
+// (scripted process and client of the C11 wrapper, including the reference server's stderr
+// stream) and then the real report(): the verdict and the printed lines.
+func VerifC04BatchReport(spec VerifC11Spec) (bool, []string, bool) {
+	obs, results := verifC11Run(spec)
+	if obs.Hang || results == nil {
+		return false, nil, true
+	}
+	p := &verifC04Printer{}
+	ok := results.report(p)
+	return ok, p.lines, false
+}
